@@ -170,6 +170,7 @@ def build_harness():
 
 def run_generators(binp, prop, outdir, seed, tier, extra_env=None):
     env = dict(GOENV, VERIF_OUT=outdir, VERIF_SEED=str(seed), VERIF_TIER=tier, VERIF_REPO=REPO, VERIF_CORPUS=os.path.join(VERIF, 'corpus'))
+    env.update(prop.get('env', {}))
     if extra_env:
         env.update(extra_env)
     os.makedirs(outdir, exist_ok=True)
